@@ -505,10 +505,42 @@ def handleSpecC13 (args : List Sexp) (v : Variant := {}) : Sexp :=
     | some (.list (.atom "fail" :: m)) => .list (.atom "fail" :: .atom "harness" :: m)
     | some other => .list [.atom "fail", .atom "unreadable-answer", other]
 
+/-- type names of the overload classes (harness/metatypes/verif_overloads.json) -/
+def overloadTy (n : List Char) : Option TypeKind :=
+  match String.ofList n with
+  | "int" => some .int | "QString" => some .string | "bool" => some .bool | "double" => some .double
+  | "void" => some .void | _ => none
+
+def overloadTyName (t : TypeKind) : Sexp :=
+  if t = .int then .str "int".toList else if t = .string then .str "QString".toList else if t = .bool then .str "bool".toList
+  else if t = .double then .str "double".toList else .str "?".toList
+
+/-- `(c13-body overload (cls C) (name N) (methods (m kind "ret" "arg"…)…))`: the overload set found under one name, in
+    lookup order → what `uniquify_methods` (Model.Callback) makes of it: `(accepted "arg"…)` (the connected overload),
+    `(ambiguous)`, `(not-signal)` -/
+def handleOverload13 (cls : String) (ms : List Sexp) : Sexp :=
+  let parsed : Option (List MethodInfo) := Sexp.mapM? (fun m => match m with
+    | .list (.atom "m" :: .atom k :: .str r :: as) => do
+      let kind ← (match k with | "signal" => some MethodKind.signal | "slot" => some .slot | "method" => some .method | _ => none)
+      let ret ← overloadTy r
+      let args ← Sexp.mapM? (fun a => match a with | .str x => overloadTy x | _ => none) as
+      pure ({ cls, name := "m", args, ret, kind } : MethodInfo)
+    | _ => none) ms
+  match parsed with
+  | none => .list [.atom "bad-request"]
+  | some ms =>
+    match Callback.uniquifyMethods ms with
+    | none => .list [.atom "panic"]
+    | some none => .list [.atom "ambiguous"]
+    | some (some m) =>
+      if m.kind = .signal then .list (.atom "accepted" :: m.args.map overloadTyName) else .list [.atom "not-signal"]
+
 /-- `(c13-body (name "onFired2") P)`: accepted → text of the connection and handler functions (Model.Callback);
     rejected → the messages -/
 def handleBody13 (args : List Sexp) : Sexp :=
   match args with
+  | [.atom "overload", .list [.atom "cls", .str c], .list [.atom "name", _], .list (.atom "methods" :: ms)] =>
+    handleOverload13 (String.ofList c) ms
   | [.list [.atom "name", .str nm], prog] =>
     match QV.Driver.Ir.program? prog, env.findClass "VBase" with
     | some p, some ci =>
